@@ -5,11 +5,13 @@
 package main
 
 import (
+	"encoding/hex"
 	"encoding/json"
 	"fmt"
 	"io"
 	"log"
 	"os"
+	"path/filepath"
 
 	"verifharness/app"
 	"verifharness/refdec"
@@ -25,6 +27,12 @@ type Job struct {
 type JobRequest struct {
 	Session int       `json:"session"`
 	Input   refdec.BS `json:"input"`
+	// Legacy: before this request the session's record is moved to its legacy name (the
+	// name without the data type character, which the backend still reads)
+	Legacy bool `json:"legacy,omitempty"`
+	// LegacyCopy: before this request the session's record is copied to its legacy name (what
+	// an older version that has since saved under the current name leaves behind)
+	LegacyCopy bool `json:"legacy_copy,omitempty"`
 }
 
 type JobResult struct {
@@ -33,6 +41,8 @@ type JobResult struct {
 	Visible string `json:"visible"`
 	Finish  string `json:"finish_err,omitempty"`
 	Panic   string `json:"panic,omitempty"`
+	// Saved: the session records the library asked the store to keep during this request (hex)
+	Saved []string `json:"saved,omitempty"`
 }
 
 func marker(kind string, n int) {
@@ -51,7 +61,8 @@ func main() {
 		fmt.Fprintln(os.Stderr, err)
 		os.Exit(2)
 	}
-	storage := app.NewFsStorage(job.Dir, false)
+	var puts []app.PutRecord
+	storage := app.RecordingStorage(app.NewFsStorage(job.Dir, false), &puts)
 	shared := app.NewShared(job.App)
 	sessions := make([]*app.Session, len(job.Sessions))
 	for i, id := range job.Sessions {
@@ -60,10 +71,32 @@ func main() {
 		sessions[i] = s
 	}
 	enc := json.NewEncoder(os.Stdout)
+	older := map[int][]byte{} // per session: its record as it was before its previous request
 	for n, r := range job.Requests {
+		if r.Legacy {
+			id := job.Sessions[r.Session]
+			os.Rename(filepath.Join(job.Dir, "@"+id), filepath.Join(job.Dir, id))
+		}
+		if r.LegacyCopy {
+			// the legacy-named file is a generation older than the current record
+			id := job.Sessions[r.Session]
+			if b, ok := older[r.Session]; ok {
+				os.WriteFile(filepath.Join(job.Dir, id), b, 0o600)
+			}
+		}
+		if b, err := os.ReadFile(filepath.Join(job.Dir, "@"+job.Sessions[r.Session])); err == nil {
+			older[r.Session] = b
+		}
+		puts = nil
 		marker("begin", n)
 		st := sessions[r.Session].Request([]byte(r.Input))
 		marker("end", n)
-		enc.Encode(JobResult{N: n, Session: r.Session, Visible: st.Visible(), Finish: st.FinishErr, Panic: st.Panic})
+		res := JobResult{N: n, Session: r.Session, Visible: st.Visible(), Finish: st.FinishErr, Panic: st.Panic}
+		for _, p := range puts {
+			if p.Prefix == 16 && p.Key == job.Sessions[r.Session] {
+				res.Saved = append(res.Saved, hex.EncodeToString(p.Val))
+			}
+		}
+		enc.Encode(res)
 	}
 }
